@@ -12,7 +12,7 @@ import subprocess
 import sys
 import time
 
-ROOT = "/verif"
+ROOT = os.path.dirname(os.path.dirname(os.path.abspath(__file__)))   # /verif, or a snapshot of it (vp run)
 WORK = os.environ.get("VERIF_TMP", os.path.join(ROOT, ".work"))
 SPEC = os.path.join(ROOT, "spec")
 JAR = "/opt/veriftools/tla/tla2tools.jar"
